@@ -58,6 +58,10 @@ def run_case(case):
     vs = out["violations"]
     if what == "kwargs":
         return run_kwargs(r, out)
+    if what == "witness_allow_args":
+        return witness_allow_args(out)
+    if what == "witness_vmap1d_kwonly":
+        return witness_vmap1d_kwonly(out)
     from lcm.dispatchers import productmap, spacemap, vmap_1d
 
     n = r.randint(1, 5)
@@ -251,4 +255,43 @@ def run_kwargs(r, out):
     if not vs and got != ans:
         out["corr_breaks"].append({"clause": "wrapper outcome as in the model", "detail": f"{desc}: implementation {got}, model {ans}", "key": "C19:wrapper-model", "nofail": True})
     out["sample"] = {"call": desc, "outcome": got if not isinstance(got, dict) else "bound"}
+    return out
+
+
+def witness_allow_args(out):
+    """F4: allow_args(f)(1, 2, a=3) for f(a, b, c) must be rejected"""
+    from lcm.functools import allow_args
+
+    def f(a, b, c):
+        return {"a": a, "b": b, "c": c}
+
+    out["evals"] = 1
+    out["sig"] = "witness allow_args duplicate keyword"
+    try:
+        got = allow_args(f)(1, 2, a=3)
+    except (ValueError, TypeError):
+        got = "rejected"
+    if got != "rejected":
+        out["violations"].append({"clause": "missing or unexpected arguments are rejected", "detail": f"allow_args(f)(1, 2, a=3) for f(a, b, c) returned {got}", "key": "C19:accept-duplicates-positional"})
+    out["sample"] = {"call": "allow_args(f)(1, 2, a=3)", "outcome": str(got)}
+    return out
+
+
+def witness_vmap1d_kwonly(out):
+    """F5: vmap_1d over a function with keyword-only parameters"""
+    I = impl()
+    from lcm.dispatchers import vmap_1d
+
+    def f(a, *, b):
+        return a + 10 * b
+
+    out["evals"] = 1
+    out["sig"] = "witness vmap_1d keyword-only"
+    try:
+        got = I.np.asarray(vmap_1d(f, ["a", "b"])(a=I.jnp.arange(3), b=I.jnp.arange(3))).tolist()
+    except Exception as e:  # noqa: BLE001
+        got = f"{type(e).__name__}"
+    if got != [0, 11, 22]:
+        out["violations"].append({"clause": "vmap_1d evaluates", "detail": f"def f(a, *, b); vmap_1d(f, ['a', 'b'])(a=arange(3), b=arange(3)): {got}", "key": "C19:eval"})
+    out["sample"] = {"call": "vmap_1d(f, ['a','b']) with f(a, *, b)", "outcome": got}
     return out
